@@ -275,6 +275,13 @@ theorem foreach_nil (ctx : Ctx) (fuel : Nat) (env : Env) (st : State) (t : Ty) (
     execForEach ctx (fuel + 1) env st t n ix body [] k = (st, .normal) := by
   simp only [execForEach]
 
+/-- `Wiederhole … n Mal` with a count of zero or below does not run its body (the compiled loop used to test `counter ≠ 0`
+and ran 2^64 − |n| times; repaired) -/
+example : (run { structs := [], funcs := [],
+                 main := [.repeat (.intLit (-3)) [.print (.intLit 1) true], .repeat (.intLit 0) [.print (.intLit 2) true],
+                          .repeat (.intLit 2) [.print (.intLit 3) true], .print (.intLit 9) true] } 8).stdout
+          = "3\n3\n9\n" := by decide +kernel
+
 /-- non-vacuity: a concrete program exercising precedence, conversion, short-circuit, indexing -/
 example : (run { structs := [], funcs := [],
                  main := [.print (.bin .plus (.intLit 1) (.bin .mult (.intLit 2) (.intLit 3))) true,
